@@ -371,3 +371,4 @@ def run(ctx):
   gi = ctx.repo.func(f'{c19.TIG}._tensor_info_generator')
   ctx.instance('C02.R6')
   c19._graph_info_table(ctx, 'C02.R6', gi)
+  shared.rule_signature_contract(ctx, 'C02.R10')
